@@ -39,6 +39,10 @@ pub struct Case {
     /// the component-name section of every level is moved in front of the other sections
     #[serde(default)]
     name_front: bool,
+    /// tree only, with `named`: kinds of items that stay anonymous - bit 0 the root component, bit 1 the
+    /// core modules, bit 2 the nested components (so that a level's name section holds only some maps)
+    #[serde(default)]
+    anon: u8,
     /// every item of a vector section gets a section of its own
     #[serde(default)]
     split: bool,
@@ -95,12 +99,12 @@ fn trees(n: usize, max_depth: usize) -> Vec<String> {
     forests(n - 1, max_depth - 1).into_iter().map(|f| format!("C({})", f)).collect()
 }
 
-fn tree_wat(shape: &str, marker: u8, named: bool) -> Result<String, String> {
-    fn node(b: &[u8], pos: &mut usize, k: &mut u32, marker: u8, named: bool, out: &mut String) -> Result<(), String> {
+fn tree_wat(shape: &str, marker: u8, named: bool, anon: u8) -> Result<String, String> {
+    fn node(b: &[u8], pos: &mut usize, k: &mut u32, marker: u8, named: bool, anon: u8, out: &mut String) -> Result<(), String> {
         match b.get(*pos) {
             Some(b'M') => {
                 *pos += 1;
-                let id = if named { format!(" $m{}", k) } else { String::new() };
+                let id = if named && anon & 2 == 0 { format!(" $m{}", k) } else { String::new() };
                 out.push_str(&format!(
                     "(core module{} (func (export \"m{}\") (result i32) i32.const {}))",
                     id,
@@ -114,7 +118,8 @@ fn tree_wat(shape: &str, marker: u8, named: bool) -> Result<String, String> {
                 *pos += 1;
                 let me = *k;
                 *k += 1;
-                let id = if named { format!(" $c{}", me) } else { String::new() };
+                let is_anon = if me == 0 { anon & 1 != 0 } else { anon & 4 != 0 };
+                let id = if named && !is_anon { format!(" $c{}", me) } else { String::new() };
                 out.push_str(&format!("(component{}", id));
                 if marker & 1 != 0 {
                     out.push_str(&format!(" (type (enum \"c{}a\"))", me));
@@ -126,7 +131,7 @@ fn tree_wat(shape: &str, marker: u8, named: bool) -> Result<String, String> {
                             return Err("unbalanced shape".into());
                         }
                         out.push(' ');
-                        node(b, pos, k, marker, named, out)?;
+                        node(b, pos, k, marker, named, anon, out)?;
                     }
                     *pos += 1;
                 }
@@ -142,7 +147,7 @@ fn tree_wat(shape: &str, marker: u8, named: bool) -> Result<String, String> {
     let mut out = String::new();
     let mut pos = 0;
     let mut k = 0;
-    node(shape.as_bytes(), &mut pos, &mut k, marker, named, &mut out)?;
+    node(shape.as_bytes(), &mut pos, &mut k, marker, named, anon, &mut out)?;
     if pos != shape.len() {
         return Err("trailing shape".into());
     }
@@ -1140,7 +1145,7 @@ fn build(c: &Case) -> Result<Vec<u8>, String> {
         }
         k => {
             let wat_text = match k {
-                "tree" => tree_wat(&c.spec, c.marker, c.named)?,
+                "tree" => tree_wat(&c.spec, c.marker, c.named, c.anon)?,
                 "atoms" | "split" => atoms_wat(&c.spec, c.named)?,
                 "types" => types_wat(&c.spec)?,
                 _ => return Err(format!("unknown case kind {}", k)),
@@ -1372,7 +1377,7 @@ pub fn check(tier: Tier) -> i32 {
     let seq_len = tier.pick(4usize, 5usize);
     let named_len = tier.pick(3usize, 4usize);
     run.rule = format!(
-        "trees: ALL ordered nesting trees with <= {} nodes and depth <= {} (nodes = components, leaves also core modules with an identity constant) x marker type {{none, before, after, both}} x {{unnamed, named, named+name-section-first}}; atoms: ALL enabled sequences of length <= {} over {} section atoms ({}) with indices from an index-space model (thorough: two steps longer over a 12-atom alphabet with one atom per section kind), every sequence with adjacent same-kind items also with one section per item, sequences of length <= {} also with $names (name section last / first); split: for every ordered pair of atoms K,S the interleavings K^a S K^b [S K^c] (a,b in 1..2, c in 0..2) after a minimal setup, merged and one-section-per-item; types: {} component type forms + {} core type forms x {} positions; canon: {} canonical function forms; {}; oracle = wasmparser validator + wasmprinter text (annotations removed) + per-level custom-section list + component names + per-level run-length section skeleton, all decoded without wirm; non-trivial class = tree (depth, #modules, #components, marker) / run-length section-kind sequence and framing / form@position",
+        "trees: ALL ordered nesting trees with <= {} nodes and depth <= {} (nodes = components, leaves also core modules with an identity constant) x marker type {{none, before, after, both}} x {{unnamed, named, named+name-section-first, and named with every proper non-empty subset of {{root component, core modules, nested components}} left anonymous}}; atoms: ALL enabled sequences of length <= {} over {} section atoms ({}) with indices from an index-space model (thorough: two steps longer over a 12-atom alphabet with one atom per section kind), every sequence with adjacent same-kind items also with one section per item, sequences of length <= {} also with $names (name section last / first); split: for every ordered pair of atoms K,S the interleavings K^a S K^b [S K^c] (a,b in 1..2, c in 0..2) after a minimal setup, merged and one-section-per-item; types: {} component type forms + {} core type forms x {} positions; canon: {} canonical function forms; {}; oracle = wasmparser validator + wasmprinter text (annotations removed) + per-level custom-section list + component names + per-level run-length section skeleton, all decoded without wirm; non-trivial class = tree (depth, #modules, #components, marker) / run-length section-kind sequence and framing / form@position",
         tree_nodes,
         max_depth,
         seq_len,
@@ -1396,7 +1401,11 @@ pub fn check(tier: Tier) -> i32 {
         for shape in trees(n, max_depth) {
             for marker in 0..4u8 {
                 for (named, name_front) in [(false, false), (true, false), (true, true)] {
-                    cases.push(Case { kind: "tree".into(), spec: shape.clone(), marker, named, name_front, split: false });
+                    cases.push(Case { kind: "tree".into(), spec: shape.clone(), marker, named, name_front, split: false, anon: 0 });
+                }
+                // partly named: every proper subset of {root, core modules, nested components} anonymous
+                for anon in 1..7u8 {
+                    cases.push(Case { kind: "tree".into(), spec: shape.clone(), marker, named: true, name_front: anon % 2 == 0, split: false, anon });
                 }
             }
         }
@@ -1405,19 +1414,19 @@ pub fn check(tier: Tier) -> i32 {
     run.run_cases("tree", &cases, run_case);
 
     // ---- atom sequences
-    let mut cases = vec![Case { kind: "atoms".into(), spec: String::new(), marker: 0, named: false, name_front: false, split: false }];
+    let mut cases = vec![Case { kind: "atoms".into(), spec: String::new(), marker: 0, named: false, name_front: false, split: false, anon: 0 }];
     let mut n_seq = 0usize;
     for len in 1..=seq_len {
         for seq in atom_sequences(len, ATOMS) {
             n_seq += 1;
             let spec = spec_of(&seq);
-            cases.push(Case { kind: "atoms".into(), spec: spec.clone(), marker: 0, named: false, name_front: false, split: false });
+            cases.push(Case { kind: "atoms".into(), spec: spec.clone(), marker: 0, named: false, name_front: false, split: false, anon: 0 });
             if has_adjacent_mergeable(&seq) {
-                cases.push(Case { kind: "atoms".into(), spec: spec.clone(), marker: 0, named: false, name_front: false, split: true });
+                cases.push(Case { kind: "atoms".into(), spec: spec.clone(), marker: 0, named: false, name_front: false, split: true, anon: 0 });
             }
             if len <= named_len {
-                cases.push(Case { kind: "atoms".into(), spec: spec.clone(), marker: 0, named: true, name_front: false, split: false });
-                cases.push(Case { kind: "atoms".into(), spec: spec.clone(), marker: 0, named: true, name_front: true, split: true });
+                cases.push(Case { kind: "atoms".into(), spec: spec.clone(), marker: 0, named: true, name_front: false, split: false, anon: 0 });
+                cases.push(Case { kind: "atoms".into(), spec: spec.clone(), marker: 0, named: true, name_front: true, split: true, anon: 0 });
             }
         }
         if cases.len() > 300_000 {
@@ -1434,9 +1443,9 @@ pub fn check(tier: Tier) -> i32 {
         for seq in atom_sequences(seq_len + 1, REDUCED_ATOMS).into_iter().chain(atom_sequences(seq_len + 2, REDUCED_ATOMS)) {
             n += 1;
             let spec = spec_of(&seq);
-            cases.push(Case { kind: "atoms".into(), spec: spec.clone(), marker: 0, named: false, name_front: false, split: false });
+            cases.push(Case { kind: "atoms".into(), spec: spec.clone(), marker: 0, named: false, name_front: false, split: false, anon: 0 });
             if has_adjacent_mergeable(&seq) {
-                cases.push(Case { kind: "atoms".into(), spec, marker: 0, named: false, name_front: false, split: true });
+                cases.push(Case { kind: "atoms".into(), spec, marker: 0, named: false, name_front: false, split: true, anon: 0 });
             }
             if cases.len() > 300_000 {
                 run.run_cases("atoms-reduced-alphabet", &cases, run_case);
@@ -1483,7 +1492,7 @@ pub fn check(tier: Tier) -> i32 {
                             if split && !has_adjacent_mergeable(&seq) {
                                 continue;
                             }
-                            cases.push(Case { kind: "split".into(), spec: spec.clone(), marker: 0, named: false, name_front: false, split });
+                            cases.push(Case { kind: "split".into(), spec: spec.clone(), marker: 0, named: false, name_front: false, split, anon: 0 });
                         }
                     }
                 }
@@ -1496,20 +1505,20 @@ pub fn check(tier: Tier) -> i32 {
     let mut cases = vec![];
     for (f, _) in TYPE_FORMS.iter().chain(CORE_TYPE_FORMS.iter()) {
         for p in TYPE_POSITIONS {
-            cases.push(Case { kind: "types".into(), spec: format!("{}@{}", f, p), marker: 0, named: false, name_front: false, split: false });
+            cases.push(Case { kind: "types".into(), spec: format!("{}@{}", f, p), marker: 0, named: false, name_front: false, split: false, anon: 0 });
         }
     }
     // (a one-member explicit rec group is semantically the same type as the bare type; flattening it
     // is not judged, so only two-member groups are generated)
     for f in ["enc-rec2"] {
         for p in ["in-instance-type", "in-component-type", "in-instance-in-component-type", "in-component-in-component-type"] {
-            cases.push(Case { kind: "types".into(), spec: format!("{}@{}", f, p), marker: 0, named: false, name_front: false, split: false });
+            cases.push(Case { kind: "types".into(), spec: format!("{}@{}", f, p), marker: 0, named: false, name_front: false, split: false, anon: 0 });
         }
     }
     run.run_cases("types", &cases, run_case);
     let cases: Vec<Case> = CANON_FORMS
         .iter()
-        .map(|f| Case { kind: "canon".into(), spec: f.to_string(), marker: 0, named: false, name_front: false, split: false })
+        .map(|f| Case { kind: "canon".into(), spec: f.to_string(), marker: 0, named: false, name_front: false, split: false, anon: 0 })
         .collect();
     run.run_cases("canon", &cases, run_case);
 
@@ -1520,12 +1529,12 @@ pub fn check(tier: Tier) -> i32 {
         for f in corpus_files() {
             files += 1;
             if f.ends_with(".wat") {
-                cases.push(Case { kind: "corpus".into(), spec: format!("{}#0", f), marker: 0, named: false, name_front: false, split: false });
+                cases.push(Case { kind: "corpus".into(), spec: format!("{}#0", f), marker: 0, named: false, name_front: false, split: false, anon: 0 });
             } else {
                 for (i, b) in wast_components(&f).iter().enumerate() {
                     if b.is_some() {
                         for split in [false, true] {
-                            cases.push(Case { kind: "corpus".into(), spec: format!("{}#{}", f, i), marker: 0, named: false, name_front: false, split });
+                            cases.push(Case { kind: "corpus".into(), spec: format!("{}#{}", f, i), marker: 0, named: false, name_front: false, split, anon: 0 });
                         }
                     }
                 }
@@ -1572,7 +1581,7 @@ pub fn scratch(arg: &str) {
         }
         Err(p) => out(&format!("panic: {} at {}:{}", p.msg, p.file, p.line)),
     }
-    let c = Case { kind: "x".into(), spec: String::new(), marker: 0, named: false, name_front: false, split: false };
+    let c = Case { kind: "x".into(), spec: String::new(), marker: 0, named: false, name_front: false, split: false, anon: 0 };
     for m in evaluate(&c, &bytes).mismatches {
         out(&format!("mismatch [{}] {}", m.sig, m.detail));
     }
